@@ -73,7 +73,8 @@ def _chain(draw):
     members = []
     for i in range(k):
         members.append({"prog": _filter(draw, table), "id": f"s{i}"})
-    return {"shape": "chain", "table": table, "members": members, "preceding_from": draw(st.integers(1, k - 1))}
+    return {"shape": "chain", "table": table, "members": members, "preceding_from": draw(st.integers(1, k - 1)),
+            "via_ref": draw(st.sampled_from([False, False, True]))}
 
 
 @st.composite
@@ -141,6 +142,8 @@ def run_chain(case, sb):
             fields.append("source-mode: preceding")
         return common.text_of(m["prog"], filename, "*", comment="~ " + " ".join(fields) + " ~ ")
     # composition oracle
+    if case.get("via_ref"):
+        rel = sb.write_csv("copied.csv", [r for r in records if r])
     expected = []
     dropped = 0
     for i, m in enumerate(members):
@@ -162,7 +165,18 @@ def run_chain(case, sb):
     cps = real.new_csvpaths()
     texts = [text(m, "", i >= j) for i, m in enumerate(members)]
     real.setup_group(sb, cps, "chain", texts, "f", records)
-    out = real.run_group(cps, "chain", "f", "collect_paths")
+    fname = "f"
+    if case.get("via_ref"):
+        # the chain's input is itself a results reference: a first group copies every non-blank
+        # record into its data.csv, the chain then runs against '$src.results.:last.all'
+        import contextlib, io, warnings
+        with warnings.catch_warnings(), contextlib.redirect_stdout(io.StringIO()):
+            cps.paths_manager.add_named_paths(name="src", paths=["~ id: all ~ $[*][ yes() ]"])
+        o0 = real.run_group(cps, "src", "f", "collect_paths")
+        if o0["raised"]:
+            return core.outcome(undefined=True, labels=["source-run-raised"])
+        fname = "$src.results.:last.all"
+    out = real.run_group(cps, "chain", fname, "collect_paths")
     problems = []
     summary = {"csvpaths": texts, "records": records, "expected_lines": expected}
     if out["raised"]:
@@ -189,7 +203,7 @@ def run_chain(case, sb):
                 if man.get("source_mode_preceding"):
                     problems.append({"stage": i, "source_mode_preceding": True, "expected": False})
     ok = not problems
-    return core.outcome(ok=ok, nontrivial=dropped >= 2, labels=["shape:chain", f"stages:{len(members)}"],
+    return core.outcome(ok=ok, nontrivial=dropped >= 2, labels=["shape:chain", f"stages:{len(members)}"] + (["via-results-reference"] if case.get("via_ref") else []),
                         detail=None if ok else dict(summary, problems=problems[:5]), summary=summary)
 
 
